@@ -10,14 +10,14 @@ from pwv.core import Result, lib
 ID = 'C19'
 MODES = ['zero', 'symmetric', 'reflect', 'periodization']
 RULE = ('Hypothesis draws direction (analysis/synthesis), filters as a 2-tuple of one wavelet or a 4-tuple '
-        '(column wavelet, row wavelet) of two different wavelets, or (one case in six) a hand-made bank with integer-typed lowpass taps given as integer ndarrays / lists, mode in zero/symmetric/reflect/'
+        '(column wavelet, row wavelet) of two different wavelets, or (one case in six) a hand-made bank with integer-typed lowpass taps given as integer ndarrays / lists (2-8 taps, odd counts included outside periodization), mode in zero/symmetric/reflect/'
         'periodization, independent H,W >= 2 (odd, shorter than the filter, non-square), N, C, dtype, '
         'content recipes. Oracle: differential afb2d_nonsep vs afb2d and sfb2d_nonsep vs sfb2d on the same '
         'arguments (basis inputs for the full operator when small, dense inputs always); exactly one of the '
         'two raising is a violation. Non-trivial = non-square or 4-tuple or odd. Distinct = configuration '
         'without seeds.')
 ASSUMPTIONS = ['the separable implementation is the reference for the non-separable one (C01/C10 tie the '
-               'separable one to PyWavelets)', 'tolerance 1e-9*max(1,gain*max|x|) float64; 64*eps32 float32']
+               'separable one to PyWavelets)', 'tolerance 1e-11*max(1,gain*max|x|) float64; 64*eps32 float32']
 STRATA = {'thorough': 'every (wavelet, mode, direction) with the same wavelet on both axes: 106 x 4 x 2',
           'quick': ''}
 LABEL_FLOORS = {'odd': 0.3, '4tuple': 0.3}
@@ -54,8 +54,12 @@ def _case(draw, unit):
                 lo[0] = 1
             hi = [draw(st.sampled_from([0.5, -0.5, 0.125, 0.375, -0.375, 1.0, -1.0, 0.0, 2.0 ** -0.5, -0.3])) for _ in range(L)]
             return lo, hi
-        Lc = draw(st.sampled_from([2, 2, 4, 4, 6, 8]))
-        Lr = Lc if not four else draw(st.sampled_from([2, 4, 6]))
+        # odd tap counts too (LeGall 5/3-like banks): no PyWavelets wavelet has one, so this is the only way to reach
+        # pad arithmetic that assumes an even count. Not in periodization: its definition (roll by L/2) presumes an
+        # even count and the two paths already differ there on the pinned tree (DESIGN.md 6.3c, last round).
+        odd_ok = mode != 'periodization'
+        Lc = draw(st.sampled_from([2, 4, 3, 5, 7, 6, 8] if odd_ok else [2, 2, 4, 4, 6, 8]))
+        Lr = Lc if not four else draw(st.sampled_from([2, 3, 5, 4, 6, 7] if odd_ok else [2, 4, 6]))
         bc = bank(Lc)
         br = bank(Lr) if four else bc
         custom = {'lo_c': bc[0], 'hi_c': bc[1], 'lo_r': br[0], 'hi_r': br[1],
@@ -87,7 +91,8 @@ def run_case(case):
     cu = case.get('custom')
     if cu:
         Lc, Lr = len(cu['lo_c']), len(cu['lo_r'])
-        r.label('custom_filter_bank', 'filters_as_' + cu['container'])
+        r.label('custom_filter_bank', 'filters_as_' + cu['container'],
+                'odd_tap_count' if (Lc % 2 or Lr % 2) else None)
     r.label(case['direction'], mode, case['dtype'], '4tuple' if case['four'] else '2tuple',
             'odd' if (H % 2 or W % 2) else None, 'nonsquare' if H != W else None,
             'different_wavelets' if case['wcol'] != case['wrow'] else None,
@@ -171,7 +176,7 @@ def run_case(case):
             continue
         g = max(1.0, float(np.abs(a).reshape(a.shape[0], -1).sum(0).max())) if name == 'operator' else g
         scale = 1.0 if name == 'operator' else core.maxabs(x)
-        tol = (64 * core.EPS32 if f32 else 1e-9) * max(g * scale, 1e-300)
+        tol = (64 * core.EPS32 if f32 else core.TOL64) * max(g * scale, 1e-300)
         okc, err = core.close(b, a, tol)
         r.metric('%s_rel_err_%s' % (name, case['dtype']), err / max(g * scale, 1e-300))
         if not okc:
@@ -184,6 +189,6 @@ LEVEL_TEXT = ('Generated-input search: the one-level non-separable analysis/synt
               'with the separable ones as whole operators (basis inputs) and on dense inputs, over wavelets, '
               '2-/4-tuples with different row/column wavelets, 4 modes, odd / short / non-square sizes; '
               'acceptance must agree too. Thorough tier visits every wavelet x mode x direction.')
-LEVEL_TEXT += (' Also generated: mode spelled per, hand-made banks with integer-typed taps as integer arrays / lists.')
+LEVEL_TEXT += (' Also generated: mode spelled per, hand-made banks with integer-typed taps as integer arrays / lists, with odd tap counts (3, 5, 7) outside periodization.')
 LEVEL_NOTE = 'Differential against the separable path only (its agreement with PyWavelets is C01/C10); sizes <= 24x24.'
 TECHNIQUE = 'property-based testing (Hypothesis), differential oracle separable vs non-separable'
